@@ -55,7 +55,7 @@ fcppt::parse::int_<Type>::parse(
                       fcppt::tuple::get<1>(_result)};
                 }),
             [&_result](result_type const _value) {
-              return fcppt::tuple::get<0>(_result).has_value() ? -_value : _value;
+              return fcppt::tuple::get<0>(_result).has_value() ? static_cast<result_type>(-_value) : _value;
             });
       });
 }
